@@ -100,6 +100,16 @@ P2(v) == <<v[1], v[2]>>
 Norm2(v) == IF Len(v) = 2 THEN Rho2(v) ELSE IF Len(v) = 3 THEN Mag2(v) ELSE Tau2(v)
 Norm(v)  == IF Len(v) = 2 THEN Rho(v)  ELSE IF Len(v) = 3 THEN Mag(v)  ELSE Tau(v)
 
+\* numpy.sqrt / cbrt / power of a vector are functions of its norm: norm^e.
+\* Integer powers are defined for every norm (tau < 0 for spacelike vectors), roots only
+\* for a non-negative one.
+NormPow(v, e) == IF e = Two THEN Sq(Norm(v))
+                 ELSE IF e = I(3) THEN Mul(Sq(Norm(v)), Norm(v))
+                 ELSE IF e = One THEN Norm(v)
+                 ELSE IF QSign(Norm2(v)) < 0 THEN Undef
+                 ELSE IF Norm2(v) = Zero THEN (IF QSign(e) > 0 THEN Zero ELSE Undef)
+                 ELSE <<"pow", Norm(v), e>>
+
 \* unit(): rho == 1 / mag == 1 / |tau| == 1, parallel to the original; the zero
 \* (or, in 4-D, lightlike) vector has no direction: Undef
 Unit(v) == LET n2 == Norm2(v)
